@@ -23,6 +23,7 @@ type c02Hist struct {
 	Env      EnvCfg `json:"env"`
 	CoTenant int    `json:"co_tenant,omitempty"` // C09: adversarial pool co-tenant between operations (1 keeps, 2 frees again)
 	Prop     string `json:"prop,omitempty"`
+	RelEach  bool   `json:"release_after_each_next,omitempty"` // the reader is Released after every Next (the decoder stays)
 }
 
 func c02HistValues() []ref.Value {
@@ -127,6 +128,16 @@ func c02HistOne(c *mc.Ctx, k c02Hist) {
 					return
 				}
 				pos += len(encs[i])
+				if k.RelEach && r != nil {
+					if r.ReadLen() != len(encs[i]) {
+						bad("readlen", "round %d, after Next #%d ReadLen=%d, want %d (released before)", round, i, r.ReadLen(), len(encs[i]))
+						return
+					}
+					r.Release(nil) // results handed out so far are no longer valid
+					kept, last = kept[:0], nil
+					pos = 0
+					continue
+				}
 				if r != nil && r.ReadLen() != pos {
 					bad("readlen", "round %d, after Next #%d ReadLen=%d, want %d", round, i, r.ReadLen(), pos)
 					return
@@ -222,6 +233,9 @@ func c02Histories(c *mc.Ctx) {
 				}
 				c.Distinct("hist", dec, fmt.Sprint(seq), env.String())
 				c02HistOne(c, c02Hist{Decoder: dec, Seq: seq, Env: env})
+				if (dec == skDecStream || dec == skDecBytesR) && len(seq) >= 2 {
+					c02HistOne(c, c02Hist{Decoder: dec, Seq: seq, Env: env, RelEach: true})
+				}
 			}
 		}
 	}
